@@ -537,10 +537,10 @@ class _FuncOnly:
 # that is tested by truthiness at a new site treats the empty input as absent: the dispatch falls through to another
 # source (and crashes on its None), or the one-source validation miscounts.
 LEGACY_TRUTHINESS = {
-    # site -> reason it is harmless
-    ("IncludeReverseFeaturesStrategy._set_annotation_methods", "self._examples_mode"): "None or one of three non-empty string constants",
-    ("get_instance_tracker", "file_target_classes"): "a path; the empty path cannot be opened either way",
-    ("_yielder_for_url_input", "url_input"): "a URL; the empty URL cannot be fetched either way",
+    # argument of Shaper.__init__ whose copies are tested by truthiness somewhere today -> why that is harmless
+    "examples_mode": "None or one of three non-empty string constants",
+    "file_target_classes": "a path; the empty path cannot be opened either way",
+    "url_graph_input": "a URL; the empty URL cannot be fetched either way",
 }
 
 
@@ -581,22 +581,24 @@ def given_is_not_none(ctx, clause):
     optional = [n for n, d in defaults.items() if isinstance(d, ast.Constant) and d.value is None]
     if len(optional) < 12:
         raise AnalysisError("Shaper.__init__ has %d optional (None) arguments, expected at least 12" % len(optional))
-    tainted = g.flows([g.var(init, n) for n in optional], labels=("copy",))
+    closures = {n: g.flows([g.var(init, n)], labels=("copy",)) for n in optional}
     obs, seen_legacy, n_sites = [], set(), 0
     for f in p.funcs.values():
         for e in _truth_positions(f):
             n_sites += 1
-            if not isinstance(e, (ast.Name, ast.Attribute, ast.Subscript)) or not g.expr_tainted(e, tainted, deep=False):
+            if not isinstance(e, (ast.Name, ast.Attribute, ast.Subscript)):
                 continue
-            site = (f.short, norm(e))
-            if site in LEGACY_TRUTHINESS:
-                seen_legacy.add(site)
+            sources = {n for n, t in closures.items() if g.expr_tainted(e, t, deep=False)}
+            if not sources:
+                continue
+            if sources <= set(LEGACY_TRUTHINESS):
+                seen_legacy |= sources          # wherever the test sits (the dispatch may be reorganised), it is about these arguments
                 continue
             obs.append(Ob(clause, "R-GIVEN", "R-GIVEN|truthiness|%s|%s" % (f.short, f.key(e)), f.loc(e), False,
-                          "`%s` is a plain copy of an optional argument of Shaper.__init__ and is tested by truthiness: an input that "
+                          "`%s` is a plain copy of the optional argument %s of Shaper.__init__ and is tested by truthiness: an input that "
                           "is given but empty (an empty rdflib Graph, \"\" as raw graph, an empty list) is treated as not given - "
-                          "everywhere else given-ness is `is not None`" % norm(e)))
+                          "everywhere else given-ness is `is not None`" % (norm(e), "/".join(sorted(sources - set(LEGACY_TRUTHINESS))))))
     obs.append(Ob(clause, "R-GIVEN", "R-GIVEN|truthiness|all-sites", init.loc(), True,
-                  "no copy of the %d optional API arguments is tested by truthiness outside the %d confirmed legacy sites "
+                  "no copy of the %d optional API arguments is tested by truthiness, except the %d arguments for which that is harmless "
                   "(%d truth-tested operands looked at)" % (len(optional), len(LEGACY_TRUTHINESS), n_sites)))
     return obs, n_sites
